@@ -121,7 +121,7 @@ OpParse(z, l) ==
      ELSE IF IsDecimalLit(l) THEN Ok(RoundTo(l.neg, l.M, One, LitK10(l), p, z.mode), p, z.mode, {"C12"})
      ELSE OkFree(Special("zero", l.neg), p, z.mode, {"C12"}, {"value", "acc"})
 
-(* binary exponent |k2| <= 20000: N/D exact *)
+(* binary exponent |k2| <= 300000 (the trace specification leaves larger ones free): N/D exact *)
 BinLitN(l) == IF LitK2(l).neg THEN l.M ELSE Mul(l.M, Pow2(IToInt(LitK2(l))))
 BinLitD(l) == IF LitK2(l).neg THEN Pow2(IToInt(IAbs2(LitK2(l)))) ELSE One
 (* stored exactly when representable, otherwise within one unit in the last place *)
